@@ -1490,6 +1490,85 @@ def render_guards_holder():
     return "\n".join(GUARDS_HEADER) + "\n" + "\n".join(out) + "\n"
 
 
+# ----------------------------------------------------------------------------
+# Variable.get_formula -> coq/gen/GuardsFormula.v
+# ----------------------------------------------------------------------------
+
+VAR = "openfisca_core/variables/variable.py"
+
+
+def render_guards_formula():
+    what = "Variable.get_formula"
+    tree = _parse(VAR)
+    _require_import(tree, VAR, "openfisca_core", "periods")
+    _require_import(tree, VAR, "openfisca_core.periods", "Period")
+    _no_rebinding(tree, VAR, {"periods", "Period", "reversed", "str", "isinstance", "ValueError"})
+    fn = _func(tree, "get_formula", cls="Variable")
+    a = fn.args
+    if len(a.args) != 2 or len(a.defaults) != 1 or not _is(a.defaults[0], "None") or a.vararg or a.kwarg or a.kwonlyargs:
+        raise TranslationError(f"{what}: signature changed ({_src(a)})")
+    me, per = a.args[0].arg, a.args[1].arg
+    stmts = [st for st in _body(fn)
+             if not (isinstance(st, ast.AnnAssign) and st.value is None and isinstance(st.target, ast.Name))]
+    bools = {f"{me}.formulas": "has_formulas", f"{per} is None": "period_is_none"}
+    allowed = ["has_formulas", "period_is_none"]
+    outcomes = {"return None": "FNone", f"return {me}.formulas.peekitem(index=0)[1]": "FOldest"}
+    b = {"self": me, "period": per}
+    instant_pat = ("if isinstance(__r_period, Period):\n    __b_instant = __r_period.start\n"
+                   "else:\n    try:\n        __b_instant = periods.period(__r_period).start\n"
+                   "    except ValueError:\n        __b_instant = periods.instant(__r_period)")
+    lines = []
+    stage = 0          # 0: before the instant, 1: instant known, 2: its text known
+    k = 0
+    while k < len(stmts):
+        st = stmts[k]
+        if stage == 0 and _matches(instant_pat, st, b):
+            ins = b["instant"]
+            bools[f"{ins} is None"] = "instant_is_none"
+            bools[f"{me}.end"] = "has_end"
+            bools[f"{ins}.date > {me}.end"] = "after_end"
+            allowed += ["instant_is_none", "has_end", "after_end"]
+            stage = 1
+        elif stage == 1 and _matches("__b_text = str(__r_instant)", st, b):
+            stage = 2
+            break
+        elif isinstance(st, ast.If) and not st.orelse and len(st.body) == 1:
+            o = [v for p, v in outcomes.items() if _is(st.body[0], p, mode="exec")]
+            if not o:
+                raise TranslationError(f"{_where(what, st.body[0])}: outcome '{_line(st.body[0])}' is not of a known form")
+            env = _Env(what, allowed=allowed, bools=bools)
+            lines.append(f"  {'else if' if lines else 'if'} {_cond(st.test, env)} then {o[0]}")
+        else:
+            raise TranslationError(f"{_where(what, st)}: statement '{_line(st)}' is not a known step of get_formula")
+        k += 1
+    rest = stmts[k + 1:]
+    if stage != 2 or len(rest) != 2:
+        raise TranslationError(f"{what}: expected, after the tests, the text of the instant, the scan of the start dates and 'return None'")
+    scan = None
+    for dsrc, dtag in (("reversed(__r_self.formulas)", "ScanReversed"), ("__r_self.formulas", "ScanForward")):
+        for csrc, ctag in (("<=", "CmpLe"), ("<", "CmpLt"), (">=", "CmpGe"), (">", "CmpGt")):
+            p = (f"for __b_start in {dsrc}:\n    if __r_start {csrc} __r_text:\n"
+                 f"        return __r_self.formulas[__r_start]")
+            if _matches(p, rest[0], dict(b)):
+                scan = f"ScanFirst {dtag} {ctag}"
+    if scan is None:
+        raise TranslationError(f"{_where(what, rest[0])}: the scan '{_line(rest[0])}' is not 'for start in [reversed](self.formulas): "
+                               f"if start <cmp> text: return self.formulas[start]'")
+    if not _is(rest[1], "return None", mode="exec"):
+        raise TranslationError(f"{_where(what, rest[1])}: expected 'return None' after the scan")
+    lines.append(f"  {'else ' if lines else ''}FScan.")
+    return "\n".join(GUARDS_HEADER + [
+        "(* Variable.get_formula(period): the tests before the scan of the start dates *)",
+        "Definition gen_formula_guard (has_formulas period_is_none instant_is_none has_end after_end : bool) "
+        ": formula_outcome :=",
+    ] + lines + [
+        "",
+        "(* Variable.get_formula(period): the scan; nothing found = None *)",
+        f"Definition gen_formula_scan : scan_rule := {scan}.",
+        "",
+    ])
+
+
 def render_guards():
     parts = [guard_check_consistency(), guard_add(), guard_divide(), guard_dispatch()]
     return "\n".join(GUARDS_HEADER) + "\n" + "\n\n".join(parts) + "\n"
@@ -1551,6 +1630,7 @@ GENERATED = [
     ("GuardsPlan.v", lambda: render_guards_plan()),        # order of the evaluator   (props/C18.v)
     ("GuardsStorage.v", lambda: render_guards_storage()),  # memory / disk storages   (props/C17.v)
     ("GuardsHolder.v", lambda: render_guards_holder()),    # holder: where values live (props/C17.v)
+    ("GuardsFormula.v", lambda: render_guards_formula()),  # Variable.get_formula     (props/C01.v)
 ]
 
 
